@@ -108,8 +108,10 @@ func dereference(t reflect.Type) reflect.Type {
 	if t == nil {
 		return nil
 	}
-	if t.Kind() == reflect.Ptr {
-		t = dereference(t.Elem())
+	// The number of steps is bounded: a pointer type can be cyclic
+	// (type P *P), and following it would never end.
+	for i := 0; t.Kind() == reflect.Ptr && i < 64; i++ {
+		t = t.Elem()
 	}
 	return t
 }
